@@ -30,7 +30,7 @@ def plan(tier):
     iid = 1
     pairs = [(a, b) for a in units for b in units]
     rnd.shuffle(pairs)
-    for (su, ss, so), (du, ds, do) in pairs[: (34 if tier == "quick" else 320)]:
+    for (su, ss, so), (du, ds, do) in pairs[: (48 if tier == "quick" else 320)]:
         scale = ss / ds
         off = (so - do) / ds
         if max(abs(scale.numerator), scale.denominator, abs(off.numerator), off.denominator) > 10 ** 9:
@@ -94,7 +94,7 @@ def plan(tier):
             inst.append({"id": iid, "desc": f"shift {pu}:{r1} +- {qu}:{r2}", "code": f'vfp9::run_shift<{pu}, {r1}, {qu}, {r2}>(ID, "shift {pu}:{r1} +- {qu}:{r2}", {k.numerator}LL, {k.denominator}LL, {off.numerator}LL, {off.denominator}LL, nrandom, seed ^ ID);'})
             iid += 1
         n_shift += 1
-        if n_shift >= (14 if tier == "quick" else 120):
+        if n_shift >= (22 if tier == "quick" else 120):
             break
     for i in inst:
         i["code"] = i["code"].replace("ID", str(i["id"]))
